@@ -9,6 +9,7 @@ import WowVerif.Model.Frame
 import WowVerif.Model.Geometry
 import WowVerif.Model.SemIO
 import WowVerif.Model.SemSize
+import WowVerif.Model.SemLimits
 import WowVerif.Model.UpdateMask
 import WowVerif.Model.ChunkFrame
 import WowVerif.Model.View
@@ -568,6 +569,23 @@ def semHandle (st : DState) (ws : List String) : Option String :=
         | some vs => match Sem.encode c vs with
           | none => some "encfail"
           | some b => some s!"ok {if b.isEmpty then "-" else hexOf b}"
+    | none, _ => some "nokey"
+    | _, _ => some "bad-op"
+  | "within" :: key :: seed :: rest =>
+    -- the value `gen` produces for the same arguments: does it satisfy the hypothesis of bounds_hi_sound, and how long is its encoding
+    match st.corpus.get? key, seed.toNat? with
+    | some (_, c), some seed =>
+      match Sem.firstPrim c with
+      | some p => some s!"unsupported {p}"
+      | none =>
+        if !Sem.wfMs c then some "notwf" else
+        let maxLen := match rest with | m :: _ => m.toNat?.getD 4 | _ => 4
+        let sample := match rest with | [_, k] => k.toNat?.getD 1000000 | _ => 1000000
+        match Sem.genContainer c seed maxLen sample with
+        | none => some "genfail"
+        | some vs => match Sem.encode c vs with
+          | none => some "encfail"
+          | some b => some s!"ok within={if Sem.WithinLimits {} c vs then 1 else 0} len={b.length}"
     | none, _ => some "nokey"
     | _, _ => some "bad-op"
   | ["dec", key, hex] =>
